@@ -73,10 +73,10 @@ class E:
     def method(self, obj, name, *args, **kwargs):
         return self.I.call_method(obj, name, list(args), kwargs)
 
-    def require(self, name, cond, **info):
+    def require(self, name, cond, also=(), **info):
         """a structural fact about what the real code did (a Python bool): recorded as an obligation; when it is false the
         rest of the contract cannot be stated on this path, which ends (as a refuted obligation, not as a checker crash)"""
-        self.prove(name, bool(cond), **({} if cond else info))
+        self.prove(name, bool(cond), also=also, **({} if cond else info))
         if not cond:
             raise ContractAbort(name)
 
